@@ -341,6 +341,15 @@ pub fn finish(
 ) -> Verdict {
     let dir = verif_dir();
     let mut counters = merged.counters.clone();
+    if let Ok(alt) = std::env::var("LSV_MERGE_ALT") {
+        if let Ok(bytes) = std::fs::read(dir.join("work").join(prop).join(format!("evidence-{alt}.json"))) {
+            if let Ok(v) = serde_json::from_slice::<Value>(&bytes) {
+                if let Some(n) = v["coverage"]["evaluations"].as_u64() {
+                    counters.insert(format!("{alt}_build_evaluations"), n);
+                }
+            }
+        }
+    }
     let skipped = crate::history::skipped_crashing_cases();
     if skipped > 0 {
         counters.insert("excluded_crashing_histories".into(), skipped);
@@ -399,7 +408,17 @@ pub fn finish(
         "wall_s": wall_s,
         "violations": violations,
     });
-    let _ = std::fs::write(dir.join("evidence").join(format!("{prop}.json")), serde_json::to_vec_pretty(&ev).unwrap());
+    // a pass made by another build of the engine (C03: without debug assertions) keeps its evidence aside; the main
+    // pass reports how much it covered
+    match std::env::var("LSV_EVIDENCE_ALT") {
+        Ok(alt) if !alt.is_empty() => {
+            let _ = std::fs::create_dir_all(dir.join("work").join(prop));
+            let _ = std::fs::write(dir.join("work").join(prop).join(format!("evidence-{alt}.json")), serde_json::to_vec_pretty(&ev).unwrap());
+        }
+        _ => {
+            let _ = std::fs::write(dir.join("evidence").join(format!("{prop}.json")), serde_json::to_vec_pretty(&ev).unwrap());
+        }
+    }
     if let Some(e) = &merged.infra_error {
         eprintln!("INFRASTRUCTURE-ERROR property={prop} {e}");
         if merged.violation.is_none() {
